@@ -219,16 +219,66 @@ func gbC12AddPackage(c *engine.Ctx, p *engine.Prog) {
 			c.Check("addpkg-guard", eg.key, t.Pos(), ok, why)
 		}
 		seenAny := map[string]bool{}
+		// gates of the store point, including those of a private error helper's success return
+		// (e.g. `if err := checkDeployablePkgPath(pkgPath); err != nil { return err }`)
+		hgs := f.GatesWithHelpers(t, 1)
+		type gateCall struct {
+			site *engine.Site
+			gate engine.Gate
+		}
+		// pathArg: in f the argument must satisfy okArg; in a helper it must be a parameter that
+		// the call of the helper in f binds to such an argument
+		pathArg := func(in *engine.Fn, arg ast.Expr, okArg func(ast.Expr) bool) bool {
+			if in == f {
+				return okArg(arg)
+			}
+			po := engine.ObjOf(in.Info(), arg)
+			if po == nil {
+				return false
+			}
+			for i := 0; ; i++ {
+				q := paramObj(in, i)
+				if q == nil {
+					return false
+				}
+				if q != po {
+					continue
+				}
+				for _, cs := range f.CallsTo(in.Name) {
+					if len(cs.Call.Args) > i && okArg(cs.Call.Args[i]) {
+						return true
+					}
+				}
+				return false
+			}
+		}
+		gateCalls := func(callee string, argIdx int, okArg func(ast.Expr) bool) []gateCall {
+			var out []gateCall
+			for _, hg := range hgs {
+				for _, a := range engine.Atoms(hg.Gate.Cond) {
+					call, isC := ast.Unparen(a).(*ast.CallExpr)
+					if !isC || gbCalleeName(hg.In.Info(), call) != callee || len(call.Args) <= argIdx {
+						continue
+					}
+					if !pathArg(hg.In, call.Args[argIdx], okArg) {
+						continue
+					}
+					if st := hg.In.SiteOf(call); st != nil {
+						out = append(out, gateCall{st, hg.Gate})
+					}
+				}
+			}
+			return out
+		}
 		for _, bg := range boolGuards {
 			sites := f.CallsTo(bg.callee)
 			n := 0
 			ok, why := false, "predicate not found in a gate of the run/store point"
 			anyOK, anyWhy := false, ""
-			for _, gs := range sites {
-				if len(gs.Call.Args) <= bg.arg || !bg.argOK(gs.Call.Args[bg.arg]) {
-					continue
-				}
-				for _, gt := range g.Gates(t) {
+			for _, cand := range gateCalls(bg.callee, bg.arg, bg.argOK) {
+				{
+					gs := cand.site
+					gt := cand.gate
 					known, val, strict := gbLit(gt, gs.Node)
 					if !known {
 						continue
@@ -299,15 +349,20 @@ func gbC12AddPackage(c *engine.Ctx, p *engine.Prog) {
 		// reserved run path: `_, ok := IsGnoRunPath(p); ok` -> return
 		{
 			ok, why := false, "IsGnoRunPath verdict does not gate the store"
-			for _, gs := range f.CallsTo(gbG + "IsGnoRunPath") {
-				if len(gs.Call.Args) != 1 || !isPath(gs.Call.Args[0]) {
-					continue
-				}
-				vs := gbAssignedVars(f, gs)
-				r := g.CheckedGuard(gs, t)
-				if r.OK && !r.OnTrue && len(vs) == 2 {
-					if id, isId := ast.Unparen(r.Cond).(*ast.Ident); isId && info.ObjectOf(id) == vs[1] {
-						ok, why = true, "run paths are rejected"
+			for _, hg := range hgs {
+				var fs []gbFact
+				gbSplitFact(hg.Gate.Cond, hg.Gate.OnTrue, &fs)
+				for _, ft := range fs {
+					id, isId := ast.Unparen(ft.E).(*ast.Ident)
+					if !isId || ft.Pos {
+						continue
+					}
+					o := hg.In.Info().ObjectOf(id)
+					for _, gs := range hg.In.CallsTo(gbG + "IsGnoRunPath") {
+						vs := gbAssignedVars(hg.In, gs)
+						if len(vs) == 2 && vs[1] == o && o != nil && len(gs.Call.Args) == 1 && pathArg(hg.In, gs.Call.Args[0], isPath) {
+							ok, why = true, "run paths are rejected"
+						}
 					}
 				}
 			}
